@@ -29,9 +29,10 @@ RULE = ("structured: every representation x every (mate, mutate) pair x (cxpb, m
         "forced onto cxpb, cxpb+mutpb, 0 and 1-2^-53, lambda 0..10. Non-trivial = distinct case that returns at least one offspring")
 EXHAUSTIVE = {"quick": False, "thorough": False}
 TIME_BUDGET = {"quick": 60, "thorough": 900}
-TRUSTED = ["operator contract: every library mate/mutate returns the individuals it was given and writes no other "
-           "object (checked on every recorded call by snapshotting all other known objects; proved for the models "
-           "of the operators in C09/C10/C11)",
+TRUSTED = ["operator contract: a registered mate/mutate returns its arguments or objects it created itself and writes no "
+           "other object (checked on every recorded call: identity of the returned objects, snapshots of all other known "
+           "objects); in-place library operators, copy-and-return / swapped-return wrappers, operators that assign the fitness of "
+           "what they produce (memetic / local-search) and gp.staticLimit are all exercised",
            "toolbox.clone = copy.deepcopy produces an object with equal genome and fitness (checked by the oracle on "
            "every untouched offspring; C16 covers creator classes)",
            "IEEE-754 `<` and `+` of Lean `Float` equal CPython's (the recorded random() doubles are compared again)"]
@@ -43,11 +44,15 @@ EXPLANATION = ("Theorems C02.* hold for every population (repeats included), eve
                "meeting OpContract; the correspondence ties Core/Variation.lean to deap.algorithms.varAnd/varOr by "
                "replaying recorded runs (oids, call trace, genomes, fitness validity, parents).")
 
-REPS = ["list", "array", "numpy", "tree", "es"]
+REPS = ["list", "array", "numpy", "tree", "es", "perm"]
 OPS = {
-    "list": (["cxOnePoint", "cxTwoPoint", "cxUniform"], ["mutFlipBit", "mutShuffleIndexes", "mutUniformInt"]),
-    "array": (["cxOnePoint", "cxTwoPoint", "cxBlend", "cxUniform"], ["mutGaussian", "mutShuffleIndexes"]),
-    "numpy": (["cxTwoPointCopy", "cxUniform", "cxBlend"], ["mutGaussian", "mutFlipBit", "mutShuffleIndexes"]),
+    "list": (["cxOnePoint", "cxTwoPoint", "cxUniform", "cxMessyOnePoint"],
+             ["mutFlipBit", "mutShuffleIndexes", "mutUniformInt", "mutInversion"]),
+    "array": (["cxOnePoint", "cxTwoPoint", "cxBlend", "cxUniform", "cxMessyOnePoint", "cxSimulatedBinary",
+               "cxSimulatedBinaryBounded"], ["mutGaussian", "mutShuffleIndexes", "mutPolynomialBounded", "mutInversion"]),
+    "numpy": (["cxTwoPointCopy", "cxUniform", "cxBlend", "cxSimulatedBinary", "cxSimulatedBinaryBounded"],
+              ["mutGaussian", "mutFlipBit", "mutShuffleIndexes", "mutPolynomialBounded"]),
+    "perm": (["cxPartialyMatched", "cxUniformPartialyMatched", "cxOrdered"], ["mutShuffleIndexes", "mutInversion"]),
     "es": (["cxESBlend", "cxESTwoPoint"], ["mutESLogNormal"]),
     "tree": (["gp.cxOnePoint", "gp.cxOnePointLeafBiased"],
              ["gp.mutUniform", "gp.mutNodeReplacement", "gp.mutShrink", "gp.mutInsert", "gp.mutEphemeral"]),
@@ -84,7 +89,8 @@ def _setup():
     cls = {}
     for fk, fc in (("max", creator.C02FitMax), ("mo", creator.C02FitMO), ("cmax", creator.C02FitCons)):
         for rep, b, kw in (("list", list, {}), ("array", array.array, {"typecode": "d"}),
-                           ("numpy", numpy.ndarray, {}), ("tree", gp.PrimitiveTree, {}), ("es", list, {})):
+                           ("numpy", numpy.ndarray, {}), ("tree", gp.PrimitiveTree, {}), ("es", list, {}),
+                           ("perm", list, {})):
             name = "C02_%s_%s" % (rep, fk)
             if not hasattr(creator, name):
                 creator.create(name, b, fitness=fc, **kw)
@@ -118,6 +124,12 @@ def operator_pair(mate, mutate, indpb):
         "cxUniform": lambda a, b: tools.cxUniform(a, b, indpb),
         "cxBlend": lambda a, b: tools.cxBlend(a, b, 0.5),
         "cxTwoPointCopy": cxTwoPointCopy,
+        "cxMessyOnePoint": tools.cxMessyOnePoint,
+        "cxSimulatedBinary": lambda a, b: tools.cxSimulatedBinary(a, b, 2.0),
+        "cxSimulatedBinaryBounded": lambda a, b: tools.cxSimulatedBinaryBounded(a, b, 2.0, -10.0, 10.0),
+        "cxPartialyMatched": tools.cxPartialyMatched,
+        "cxUniformPartialyMatched": lambda a, b: tools.cxUniformPartialyMatched(a, b, indpb),
+        "cxOrdered": tools.cxOrdered,
         "cxESBlend": lambda a, b: tools.cxESBlend(a, b, 0.5),
         "cxESTwoPoint": tools.cxESTwoPoint,
         "gp.cxOnePoint": gp.cxOnePoint,
@@ -129,6 +141,8 @@ def operator_pair(mate, mutate, indpb):
         "mutUniformInt": lambda a: tools.mutUniformInt(a, 0, 3, indpb),
         "mutGaussian": lambda a: tools.mutGaussian(a, 0.0, 1.0, indpb),
         "mutESLogNormal": lambda a: tools.mutESLogNormal(a, 1.0, indpb),
+        "mutPolynomialBounded": lambda a: tools.mutPolynomialBounded(a, 2.0, -10.0, 10.0, indpb),
+        "mutInversion": tools.mutInversion,
         "gp.mutUniform": lambda a: gp.mutUniform(a, _expr_mut, PSET),
         "gp.mutNodeReplacement": lambda a: gp.mutNodeReplacement(a, PSET),
         "gp.mutShrink": gp.mutShrink,
@@ -156,11 +170,48 @@ def tree_tokens(tree):
     return [[n.name, n.value] if isinstance(type(n), gp.MetaEphemeral) else n.name for n in tree]
 
 
+def wrap_ops(m, u, mwrap, uwrap, limit):
+    """operators that do NOT return the objects they were given: `pure` = work on deep copies and return the copies
+    (the arguments stay as they are, the children are new objects still carrying the parents' fitness), `swap` =
+    in place but returned in the other order, `limit` = stock gp.staticLimit(height <= limit), which returns a copy of
+    a parent made before the operator ran whenever the child is too high"""
+    import operator
+    m0, u0 = m, u
+    if mwrap == "pure":
+        m = lambda a, b: m0(copy.deepcopy(a), copy.deepcopy(b))
+    elif mwrap == "swap":
+        m = lambda a, b: tuple(reversed(m0(a, b)))
+    elif mwrap == "pureswap":
+        m = lambda a, b: tuple(reversed(m0(copy.deepcopy(a), copy.deepcopy(b))))
+    elif mwrap == "half":
+        def m(a, b):          # first child in place, second child a new object
+            x, y = m0(a, copy.deepcopy(b))
+            return x, y
+    elif mwrap == "limit":
+        m = gp.staticLimit(key=operator.attrgetter("height"), max_value=limit)(m0)
+    elif mwrap in ("fitset", "purefit"):
+        def m(a, b):          # memetic crossover: the operator (re)evaluates what it produces and assigns the fitness itself
+            x, y = m0(copy.deepcopy(a), copy.deepcopy(b)) if mwrap == "purefit" else m0(a, b)
+            for k, z in enumerate((x, y)):
+                z.fitness.values = tuple(float(7 + k + j) for j in range(len(z.fitness.weights)))
+            return x, y
+    if uwrap in ("fitset", "purefit"):
+        def u(a):             # local-search mutation: assigns the fitness of its result
+            z, = u0(copy.deepcopy(a)) if uwrap == "purefit" else u0(a)
+            z.fitness.values = tuple(float(9 + j) for j in range(len(z.fitness.weights)))
+            return z,
+    elif uwrap == "pure":
+        u = lambda a: u0(copy.deepcopy(a))
+    elif uwrap == "limit":
+        u = gp.staticLimit(key=operator.attrgetter("height"), max_value=limit)(u0)
+    return m, u
+
+
 def build(rep, fk, spec):
     c = CLS[rep, fk]
     if rep == "tree":
         ind = c(tree_nodes(spec["g"]))
-    elif rep == "list":
+    elif rep in ("list", "perm"):
         ind = c(int(x) for x in spec["g"])
     elif rep == "es":
         ind = c(float(x) for x in spec["g"])
@@ -259,8 +310,10 @@ class Recorder(object):
             self.new(o)
         self.n0 = len(self.keep)
         self.events, self.calls, self.ranges = [], [], []
+        self.rets = []           # per event: the oids the call returned
         self.touched = set()
         self.contract = None
+        self.dupret = False
         self.intern = {}
 
     def new(self, o):
@@ -273,6 +326,18 @@ class Recorder(object):
         if k is None:
             self.contract = self.contract or "an operator returned / received an object unknown to the trace"
             k = self.new(o)
+        return k
+
+    def ret(self, o, args, what):
+        """oid of an object an operator returned: one of its arguments, or an object it allocated itself (unknown so
+        far: it gets the next oid); anything else breaks the operator contract"""
+        k = self.oid.get(id(o))
+        if k is None:
+            return self.new(o)
+        if k >= self.known0:          # allocated by this very call (the same new object handed back twice)
+            return k
+        if not any(o is a for a in args) and self.contract is None:
+            self.contract = "%s returned object #%d, which is neither an argument nor a new object" % (what, k)
         return k
 
     def genome(self, ind):
@@ -292,7 +357,11 @@ class Recorder(object):
         ft = ",".join(str(int(v)) for v in f.values) if f.valid else "none"
         return "%s|%s" % (self.gtok(ind), ft)
 
+    check_frame = True
+
     def _others(self, args):
+        if not self.check_frame:
+            return []
         ids = set(id(a) for a in args)
         return [(o, snap(o)) for o in self.keep if id(o) not in ids]
 
@@ -308,36 +377,41 @@ class Recorder(object):
             y = clone0(x)
             src = self.of(x)
             self.events.append("c%d>%d" % (src, self.new(y)))
+            self.rets.append((self.oid[id(y)],))
             return y
 
         def mate(a, b):
             ia, ib = self.of(a), self.of(b)
+            self.known0 = len(self.keep)
             before = self._others((a, b))
             start = len(self.tp.draws)
             ra, rb = mate0(a, b)
             self.ranges.append((start, len(self.tp.draws)))
             self._check_frame(before, "mate")
-            ja, jb = self.of(ra), self.of(rb)
-            if (ja, jb) != (ia, ib) and self.contract is None:
-                self.contract = "mate did not return the individuals it was given"
+            ja, jb = self.ret(ra, (a, b), "mate"), self.ret(rb, (a, b), "mate")
+            if ja == jb:
+                self.dupret = True        # e.g. gp.staticLimit handing back the same kept copy twice
             self.events.append("m%d&%d" % (ia, ib))
-            self.calls.append("M/%d/%d/%d/%d/%s/%s" % (ia, ib, ja, jb, self.gtok(a), self.gtok(b)))
+            self.rets.append((ja, jb))
+            self.calls.append("M/%d/%d/%d/%d/%s/%s/%s/%s" % (ia, ib, ja, jb, self.obj(a), self.obj(b),
+                                                            self.obj(ra), self.obj(rb)))
+            # "went through a crossover": the objects passed in AND the objects handed back
             self.touched.update((id(a), id(b), id(ra), id(rb)))
             return ra, rb
 
         def mutate(a):
             ia = self.of(a)
+            self.known0 = len(self.keep)
             before = self._others((a,))
             start = len(self.tp.draws)
             res = mutate0(a)
             self.ranges.append((start, len(self.tp.draws)))
             self._check_frame(before, "mutate")
             ra, = res
-            ja = self.of(ra)
-            if ja != ia and self.contract is None:
-                self.contract = "mutate did not return the individual it was given"
+            ja = self.ret(ra, (a,), "mutate")
             self.events.append("u%d" % ia)
-            self.calls.append("U/%d/%d/%s" % (ia, ja, self.gtok(a)))
+            self.rets.append((ja,))
+            self.calls.append("U/%d/%d/%s/%s" % (ia, ja, self.obj(a), self.obj(ra)))
             self.touched.update((id(a), id(ra)))
             return res
 
@@ -373,6 +447,10 @@ def sl(xs):
 
 def excluded(d):
     n = len(d["pop"])
+    if d["mate"] == "cxMessyOnePoint" and d["mutate"] == "mutShuffleIndexes":
+        return True       # the messy crossover produces individuals of size < 2, which mutShuffleIndexes cannot handle
+    if d["mate"] == "cxSimulatedBinary" and d["mutate"] == "mutPolynomialBounded":
+        return True       # unbounded SBX can push a gene outside the bounds the polynomial mutation requires
     if d["fn"] == "or":
         if n < 2 and d["cxpb"] > 0:
             return True
@@ -392,6 +470,7 @@ def evaluate(d):
     lam = d.get("lam", 0)
     tb = base.Toolbox()
     m, u = operator_pair(d["mate"], d["mutate"], d.get("indpb", 0.5))
+    m, u = wrap_ops(m, u, d.get("mwrap"), d.get("uwrap"), d.get("limit", 1))
     tb.register("mate", m)
     tb.register("mutate", u)
     if d.get("bias"):
@@ -408,19 +487,24 @@ def evaluate(d):
         heap_tok = ";".join(rec.obj(x) for x in inds) if inds else "-"
         rec.wrap(tb)
         asserted = False
+        import warnings
         try:
-            if fn == "and":
-                out = algorithms.varAnd(pop, tb, cxpb, mutpb)
-            else:
-                out = algorithms.varOr(pop, tb, lam, cxpb, mutpb)
+            with warnings.catch_warnings():
+                warnings.simplefilter("ignore")      # e.g. polynomial mutation of a gene pushed out of its bounds
+                if fn == "and":
+                    out = algorithms.varAnd(pop, tb, cxpb, mutpb)
+                else:
+                    out = algorithms.varOr(pop, tb, lam, cxpb, mutpb)
         except AssertionError:
             asserted = True
     pops = sl(d["pop"])
     draws = rec.var_draws()
     script = ";".join(rec.calls) if rec.calls else "-"
+    tape_err = None
     if fn == "and":
         if any(x[0] != "random" for x in draws):
-            raise ValueError("varAnd made an unexpected random call: %r" % (draws,))
+            tape_err = "varAnd made a random call the model does not know: %r" % ([x for x in draws if x[0] != "random"][:3],)
+            draws = [x for x in draws if x[0] == "random"]
         line = "C02 and %s %s %s %s %s %s" % (pops, heap_tok, fbits(cxpb), fbits(mutpb),
                                              sl(fbits(x[1]) for x in draws), script)
     else:
@@ -433,7 +517,7 @@ def evaluate(d):
             elif x[0] == "choice":
                 toks.append("c:%d" % x[2])
             else:
-                raise ValueError("varOr made an unexpected random call: %r" % (x,))
+                tape_err = "varOr made a random call the model does not know: %r" % (x,)
         line = "C02 or %s %s %d %s %s %s %s" % (pops, heap_tok, lam, fbits(cxpb), fbits(mutpb), sl(toks), script)
     if asserted:
         inside = cxpb + mutpb <= 1.0
@@ -514,8 +598,15 @@ def evaluate(d):
         nm = sum(1 for e in rec.events if e[0] == "m")
         nu = sum(1 for e in rec.events if e[0] == "u")
         br = ("C" if nm else "") + ("M" if nu else "") + ("R" if len(out) > nm + nu else "")
+    if tape_err is not None:
+        # the recorded tape does not fit the model's replay: a break of the correspondence, unless the oracle already
+        # names a violated clause (CONTRIBUTING, later conventions)
+        # (reported as a protocol line the model cannot answer rather than as a `TAPE:` oracle text, so that lib's
+        # shrinker, which accepts any oracle text, cannot drift from a real violation to a mere tape mismatch)
+        return Case(d, ["C02 tape-error"], ["TAPE: " + tape_err], orc, tag="%s/%s/tape-error" % (fn, rep), nontrivial=False)
     rpt = "/rpt" if len(set(d["pop"])) < len(d["pop"]) else ""
-    tag = "%s/%s/%s%s" % (fn, rep, br or "none", rpt)
+    wr = "/%s-%s" % (d.get("mwrap") or "inplace", d.get("uwrap") or "inplace") if (d.get("mwrap") or d.get("uwrap")) else ""
+    tag = "%s/%s/%s%s%s%s" % (fn, rep, br or "none", rpt, wr, "/dupret" if rec.dupret else "")
     return Case(d, [line], [ans], orc, tag=tag, nontrivial=len(out) > 0)
 
 
@@ -540,7 +631,7 @@ def mk_fit(rng, fk):
     return [rng.randint(-3, 3) for _ in range(2 if fk == "mo" else 1)]
 
 
-def mk_case(rng, fn=None, rep=None, n=None, probs=None, mate=None, mutate=None, lam=None):
+def mk_case(rng, fn=None, rep=None, n=None, probs=None, mate=None, mutate=None, lam=None, wrap=None):
     fn = fn or rng.choice(["and", "or"])
     rep = rep or rng.choice(REPS)
     fk = rng.choice(["max", "max", "mo", "cmax"])
@@ -550,9 +641,13 @@ def mk_case(rng, fn=None, rep=None, n=None, probs=None, mate=None, mutate=None, 
     by = rng.choice([0, 0, 0, 1, 2])
     ek = rng.choice(["all", "none", "mixed", "mixed"])
     inds = []
+    plen = rng.randint(3, 6)
     for i in range(m + by):
         if inds and rng.random() < 0.25:
             g = rng.choice(inds)["g"]          # duplicate genotype carried by a different object
+        elif rep == "perm":
+            g = list(range(plen))
+            rng.shuffle(g)
         else:
             g = mk_genome(rng, rep)
         ev = ek == "all" or (ek == "mixed" and rng.random() < 0.5)
@@ -595,6 +690,14 @@ def mk_case(rng, fn=None, rep=None, n=None, probs=None, mate=None, mutate=None, 
     d = {"fn": fn, "rep": rep, "fk": fk, "inds": inds, "pop": pop, "cxpb": cxpb, "mutpb": mutpb,
          "mate": mate or rng.choice(mates), "mutate": mutate or rng.choice(muts),
          "indpb": rng.choice([0.0, 0.5, 0.5, 1.0]), "seed": rng.getrandbits(32), "bias": rng.random() < 0.35}
+    if wrap is None:
+        wrap = rng.random() < 0.35
+    if wrap:
+        d["mwrap"] = rng.choice([None, "pure", "pure", "swap", "pureswap", "half", "fitset", "purefit"] +
+                                (["limit", "limit"] if rep == "tree" else []))
+        d["uwrap"] = rng.choice([None, "pure", "pure", "fitset", "fitset", "purefit"] + (["limit", "limit"] if rep == "tree" else []))
+        if "limit" in (d["mwrap"], d["uwrap"]):
+            d["limit"] = rng.choice([0, 1, 1, 2])
     if fn == "or":
         d["lam"] = (rng.randint(0, 10) if lam is None else lam) if pop else 0
     return d
@@ -609,9 +712,12 @@ def generate(tier, rng, mult):
             for mutate in muts:
                 for pr in extremes:
                     for n in range(0, 5 if thorough else 4):
-                        yield mk_case(rng, "and", rep, n, pr, mate, mutate)
+                        yield mk_case(rng, "and", rep, n, pr, mate, mutate, wrap=False)
+                        if n >= 1 and pr != (0.0, 0.0):
+                            yield mk_case(rng, "and", rep, n, pr, mate, mutate, wrap=True)
                         if pr != (1.0, 1.0) or n == 2:
-                            yield mk_case(rng, "or", rep, n, pr, mate, mutate, lam=rng.choice([1, 2, 3, 5]))
+                            yield mk_case(rng, "or", rep, n, pr, mate, mutate, lam=rng.choice([1, 2, 3, 5]),
+                                          wrap=(n >= 2 and rng.random() < 0.5))
     for _ in range((150000 if thorough else 5000) * mult):
         yield mk_case(rng)
 
@@ -641,6 +747,11 @@ def shrink(d):
         e = dict(d)
         e["bias"] = False
         yield e
+    for key in ("mwrap", "uwrap"):
+        if d.get(key):
+            e = dict(d)
+            e[key] = None
+            yield e
     for i, s in enumerate(d["inds"]):
         if s.get("extra"):
             e = dict(d)
